@@ -342,10 +342,10 @@ impl Aml for XorInterleaveMath {
     fn to_aml_bytes(&self, sink: &mut dyn AmlSink) {
         sink.byte(CedtStructureType::Cxims as u8);
         sink.byte(0); // reserved
-        sink.word(self.len() as u16);
+        sink.word(u16::try_from(self.len()).unwrap());
         sink.word(0); // reserved
         sink.byte(self.granularity as u8);
-        sink.byte(self.bitmaps.len() as u8);
+        sink.byte(u8::try_from(self.bitmaps.len()).unwrap());
         for xormap in &self.bitmaps {
             sink.qword(*xormap);
         }
